@@ -74,3 +74,13 @@ def report(anchors):
         out[a] = {"calls": int(CALLS.get(code, 0)), "lines_hit": len(LINES.get(code, ())),
                   "lines_total": _total_lines(code)}
     return out
+
+
+def dump_all():
+    """Every monitored function: file, first line, lines hit, all statement lines (tools/coverage_gaps.py)."""
+    out = {}
+    for code, name in _CODES.items():
+        allv = sorted({ln for _, _, ln in code.co_lines() if ln is not None and ln != code.co_firstlineno})
+        out[name] = {"file": code.co_filename, "first": code.co_firstlineno, "calls": int(CALLS.get(code, 0)),
+                     "hit": sorted(LINES.get(code, ())), "all": allv}
+    return out
